@@ -2,6 +2,7 @@ package eng
 
 import (
 	"go/token"
+	"go/types"
 
 	"golang.org/x/tools/go/ssa"
 )
@@ -341,4 +342,71 @@ func KnownBool(v ssa.Value, at *ssa.BasicBlock) (val, known bool) {
 		}
 	}
 	return false, false
+}
+
+// PhiDeadEdges returns the incoming edges of phi whose value can never be used: in
+//
+//	v, err := f(); if err == nil { v, err = g(v) }; if err != nil { return …, err }; use(v)
+//
+// v is φ(f's v, g's v) and err is φ(f's err, g's err) in one block. The edge that skips g is the
+// edge on which f's err is not nil, so there the err-φ is not nil either, and every use of the
+// v-φ lies behind the test that the err-φ is nil: on that edge the v-φ is dead. An edge i is
+// reported when (1) a sibling φ of error type takes, on edge i, a value e such that the CFG edge
+// pred_i→block is the `e != nil` edge of pred_i, and (2) every referrer of phi sits in a block
+// dominated by an edge on which that sibling φ is nil.
+func PhiDeadEdges(phi *ssa.Phi) map[int]bool {
+	out := map[int]bool{}
+	b := phi.Block()
+	for _, in := range b.Instrs {
+		sib, ok := in.(*ssa.Phi)
+		if !ok {
+			break
+		}
+		if sib == phi || !isErrorIface(sib.Type()) {
+			continue
+		}
+		// (2) uses behind sib == nil
+		if phi.Referrers() == nil {
+			continue
+		}
+		allBehind := true
+		for _, ref := range *phi.Referrers() {
+			if _, isDbg := ref.(*ssa.DebugRef); isDbg {
+				continue
+			}
+			if !KnownNil(sib, ref.Block()) {
+				allBehind = false
+				break
+			}
+		}
+		if !allBehind {
+			continue
+		}
+		for i, pb := range b.Preds {
+			if i >= len(sib.Edges) || len(pb.Succs) != 2 {
+				continue
+			}
+			for k, sb := range pb.Succs {
+				if sb != b {
+					continue
+				}
+				rel, okR := EdgeRel(pb, k)
+				if !okR || rel.Op != token.NEQ {
+					continue
+				}
+				x, y := rel.X, rel.Y
+				if IsNilConst(x) {
+					x, y = y, x
+				}
+				if IsNilConst(y) && x == sib.Edges[i] {
+					out[i] = true
+				}
+			}
+		}
+	}
+	return out
+}
+
+func isErrorIface(t types.Type) bool {
+	return types.Identical(t, types.Universe.Lookup("error").Type())
 }
